@@ -149,6 +149,8 @@ VARIANTS = [
     ("C12", "neutral", P + "sum.py", "            self.entries += weight\n            self.sum += q * weight", "            self.sum += q * weight\n            self.entries += weight", "reordered infallible updates"),
     ("C12", "mutant", P + "minmax.py", "            if not isinstance(q, numbers.Real):\n                raise TypeError(f\"function return value ({q}) must be boolean or number\")\n\n            # no possibility of exception from here on out (for rollback)\n            self.entries += weight\n            if math.isnan(self.max) or q > self.max:", "            if not isinstance(q, numbers.Number):\n                raise TypeError(f\"function return value ({q}) must be boolean or number\")\n\n            # no possibility of exception from here on out (for rollback)\n            self.entries += weight\n            if math.isnan(self.max) or q > self.max:", "guard admits complex numbers"),
     # ---------------- C13
+    ("C13", "mutant", P + "bin.py", "            return (self.low + bw / 2.0) + np.arange(len(self.values)) * bw", "            return np.arange(self.low + bw / 2.0, self.high + bw / 2.0, bw)", "bin_centers takes its length from a float-stepped arange again"),
+    ("C13", "neutral", P + "bin.py", "            return (self.low + bw / 2.0) + np.arange(len(self.values)) * bw", "            return (self.low + bw / 2.0) + np.arange(0, len(self.values), 1) * bw", "integer arange written with start and step"),
     ("C13", "mutant", P + "bin.py", "return np.linspace(self.low, self.high, num_bins + 1)", "return np.linspace(self.low, self.high, num_bins)", "one edge too few"),
     ("C13", "mutant", P + "centrallybin.py", "return np.array(self.centers[lidx : hidx + 1])", "return np.array(self.centers[lidx : hidx])", "one centre too few"),
     ("C13", "mutant", P + "sparselybin.py", "numBins = maxBin + 1 - minBin", "numBins = maxBin - minBin", "numBins off by one"),
